@@ -25,7 +25,7 @@ PLATFORMS = {
                  "short", VID + "xx", CHAN, "", "redirect"],
         "queries": ["", "?v=" + VID, "?v=", "?v", "?v=short", "?list=PL123", "?v=" + VID + "&list=PL123", "?list=PL1&v=" + VID,
                     "?next=%2Fwatch%3Fv%3D" + VID, "?feature=share", "?v=" + VID + "xxxx", "?u=%2Fwatch%3Fv%3D" + VID,
-                    "?q=http%3A%2F%2Fb.com", "?v=" + VID + "&v=other"],
+                    "?q=http%3A%2F%2Fb.com", "?v=" + VID + "&v=other", "?list=PL1#/watch?v=aaaaaaaaaaa"],
         "frags": ["", "#!/user", "#/watch?v=" + VID, "#t=10", "#/watch?v=bad"],
         "opts": [{}, {"fix_common_mistakes": False}],
     },
@@ -65,7 +65,8 @@ PLATFORMS = {
 SCHEMES = ["https://", "http://", ""]
 DEGENERATE = ["", "//", "http://", "http://[", "facebook.com", "not a url", "#", "?", "http://?x", "https://#f", "youtu.be", "t.me",
               "twitter.com", "instagram.com", "docs.google.com", "http://youtu.be", "https://t.me/", "/groups/1", "/watch?v=1",
-              "@", "http://@", "http://:80", "https://facebook.com:x/a", "x" * 300, "http://a.com/" + "a/" * 100]
+              "@", "http://@", "http://:80", "https://facebook.com:x/a", "x" * 300, "http://a.com/" + "a/" * 100, "youtu.be/ ", "//[", "/[", "t.me/ ",
+              "twitter.com/ ", "instagram.com/ /", "facebook.com/ "]
 GRIDS = {}
 
 
@@ -209,6 +210,8 @@ def evaluate_deg(case):
     fails, tags = [], []
     pf = case.get("platform", "facebook")
     out = check_url(pf, case.get("s", ""), {}, fails, tags)
+    if pf == "facebook":
+        check_url(pf, case.get("s", ""), {"allow_relative_urls": True}, fails, tags)
     return fails, tags, core.canon_json(out)
 
 
